@@ -113,7 +113,8 @@ pub const COMMENTS: &[(&str, bool)] = &[
 ];
 
 /// Inserts comment `k` into gap `i` (before token i, i >= 1) in placement `p`:
-/// 0 = inline (" c "), 1 = on its own line ("\n c \n"), 2 = trailing ("  c\n").
+/// 0 = inline (" c "), 1 = on its own line ("\n c \n"), 2 = trailing ("  c\n"),
+/// 3 = trailing, the next line indented by three blanks ("  c\n   ").
 pub fn with_comment(toks: &[GTok], gaps: &[String], i: usize, k: usize, p: usize) -> String {
     let (c, needs_nl) = COMMENTS[k];
     let mut s = String::new();
@@ -131,10 +132,15 @@ pub fn with_comment(toks: &[GTok], gaps: &[String], i: usize, k: usize, p: usize
                     s.push_str(c);
                     s.push('\n');
                 }
-                _ => {
+                2 => {
                     s.push_str("  ");
                     s.push_str(c);
                     s.push('\n');
+                }
+                _ => {
+                    s.push_str("  ");
+                    s.push_str(c);
+                    s.push_str("\n   ");
                 }
             }
         } else {
